@@ -6,6 +6,7 @@ import GrVerif.Proofs.CursorShape
 import GrVerif.Proofs.CodeCursor
 import GrVerif.Proofs.MapBound
 import GrVerif.Proofs.DataSafe
+import GrVerif.Proofs.Total
 import GrVerif.Gen.SlotMap
 import GrVerif.Props.C07
 /-!
@@ -242,6 +243,29 @@ theorem code_reads_only_its_own_operands {bytes : List Nat} {isAction : Bool} {k
 area (`Machine::run`'s `param[i]` after `declare_params(n)`; nothing at run time tests `dp`) -/
 theorem no_operand_read_outside_the_code (font : Font) (hf : fontOK font = true) (text : List Nat) (fuel : Nat) (dir : Nat) {w : String}
     (e : shape font text fuel dir = .error w) : w ≠ "data" := fun h => shape_noNullCursor font hf text fuel dir e (.inr (.inr h))
+
+/-- **the pipeline model never faults on a font of its fragment**: for every font whose rule code decodes into modelled opcodes (`fontFull`)
+and passes the loader's cursor tests (`fontOK`), with the positioning-pass index and loop limits the loader establishes, every text,
+direction and fuel, `shape` returns - a segment, or `none` where the engine gives up - and never an error.  Every way the model can stop
+with an error is excluded: the machine stack, a null cursor, the slot map, the operand bytes, the char-info array, the recursion fuel; what
+is left are the two errors that say "this font is outside the model", which `fontFull` rules out. -/
+theorem pipeline_never_faults (font : Font) (hfull : fontFull font = true) (hok : fontOK font = true) (hi : font.ipos ≤ font.passes.size)
+    (hL : ∀ k, k < font.passes.size → 1 ≤ (font.passes.getD k default).maxLoop) (text : List Nat) (fuel : Nat) (dir : Nat) :
+    ∃ r, shape font text fuel dir = .ok r := shape_total font hfull hok hi hL text fuel dir
+
+/-- an error of the pipeline comes from a rule application or the pass constraint of one of the font's own passes -/
+theorem pipeline_error_comes_from_a_pass (font : Font) (text : List Nat) (fuel : Nat) (dir : Nat) (hi : font.ipos ≤ font.passes.size)
+    (hL : ∀ k, k < font.passes.size → 1 ≤ (font.passes.getD k default).maxLoop) {w : String}
+    (e : shape font text fuel dir = .error w) : ∃ k, k < font.passes.size ∧ EngineErrorOf (font.passes.getD k default) w :=
+  shape_errorOf font text fuel dir hi hL e
+
+/-! non-vacuity: the jump font lies inside the fragment; a font with `PUSH_FEAT` (43, not modelled) in a rule does not, and on it the model
+stops with the error the hypothesis excludes -/
+example : fontFull (jumpFont 4) = true ∧ fontOK (jumpFont 4) = true := by decide +kernel
+def featPass : PassT := { maxLoop := 1, minPre := 0, maxPre := 0, numColumns := 1, numTransition := 1, numStates := 2, numSuccess := 1, cols := #[0xFFFF, 0], starts := #[0], trans := #[#[1]], ruleMap := #[[0]], rules := #[{ sort := 1, pre := 0, constraint := [], action := [43, 0, 0, 48] }] }
+def featFont : Font := { passes := #[featPass], ipos := 1, classes := #[], gattr := #[], gadv := #[], cmap := id }
+example : fontFull featFont = false := by decide +kernel
+example : (match shape featFont [1] 10 with | .error w => w | _ => "") = "opcode not modelled" := by decide +kernel
 
 /-- **the hypothesis comes from the loader**: action code that `Machine::Code`'s loading constructor (as modelled in `Model/CodeLoad`,
 tied to the real loader by the C01 correspondence) accepts passes the cursor tests from `(pre_context, rule_length)`, and is flagged
